@@ -19,6 +19,7 @@ from .values import (SV, Ver, DictVal, SetVal, ListVal, PObj, ItemsView, Assoc, 
 from . import folds as FO
 from . import lists as LS
 from . import enumth as EN
+from . import solth as SO
 
 
 _ARITH_KINDS = None
@@ -1538,6 +1539,8 @@ class Engine:
             ckind, coll = "gen", it.data
         elif isinstance(it, EN.Product):
             ckind, coll = "product", it
+        elif isinstance(it, SO.SolVal) and (it.view == "values" or (it.view is None and it.container != "dict")):
+            ckind, coll = "sol", it
         elif isinstance(it, SeqIter) and it.kind == "range":
             ckind = "range"
             a = it.data
@@ -1612,6 +1615,8 @@ class Engine:
             g0 = LS.empty(self)
         elif ckind == "results":
             g0 = None
+        elif ckind == "sol":
+            g0 = SV(z3.K(T.Int, z3.BoolVal(False)), "idxset")
         elif ckind == "product":
             g0 = SV(z3.K(EN.Asg, z3.BoolVal(False)), "asgset")
         else:
@@ -1682,6 +1687,19 @@ class Engine:
                 fr.locals[gname] = None
                 self.assume(inv(None))
                 item, vis2 = LS.new_rid(self, "elem"), None
+            elif ckind == "sol":
+                # the values of an indexed solution, each index of [0, n) once
+                self.nfresh += 1
+                self.quantified = True
+                V = z3.Const("visited!%d" % self.nfresh, z3.ArraySort(T.Int, T.Bool))
+                jq = z3.Int("jq!%d" % self.nfresh)
+                self.assume(z3.ForAll([jq], z3.Implies(z3.Select(V, jq), z3.And(jq >= 0, jq < coll.n))))
+                vis = SV(V, "idxset")
+                fr.locals[gname] = vis
+                self.assume(inv(vis))
+                j = self.fresh("int", "j")
+                self.assume(z3.And(j.e >= 0, j.e < coll.n, z3.Not(z3.Select(V, j.e))))
+                item, vis2 = SV(z3.Select(coll.arr, j.e), "real"), SV(z3.Store(V, j.e, z3.BoolVal(True)), "idxset")
             elif ckind == "product":
                 # every tuple of the product exactly once (trusted specification of itertools.product): the visited
                 # tuples are some of them, the current one is another
@@ -1753,6 +1771,10 @@ class Engine:
             gN = coll
         elif ckind == "results":
             gN = None
+        elif ckind == "sol":
+            self.nfresh += 1
+            jq = z3.Int("jq!%d" % self.nfresh)
+            gN = SV(z3.Lambda([jq], z3.And(jq >= 0, jq < coll.n)), "idxset")
         elif ckind == "product":
             self.nfresh += 1
             tq = z3.Const("tq!%d" % self.nfresh, EN.Asg)
@@ -2024,6 +2046,8 @@ class Engine:
             return SV(z3.Select(obj.val, kk), "real" if obj.vsort == T.Real else "int")
         if isinstance(obj, EN.Groups):
             return EN.groups_getitem(self, obj, idx)
+        if isinstance(obj, SO.SolVal) and obj.view is None:
+            return SO.getitem(self, obj, idx)
         if isinstance(obj, dict):
             if isinstance(idx, SV):
                 # concrete table indexed by a symbolic number: if-then-else chain; KeyError when no key matches
@@ -2163,7 +2187,7 @@ class Engine:
         if isinstance(obj, DictVal) and name not in DICT_ATTRS:
             raise PyExc("AttributeError", name)          # a plain dict has no such attribute
         if isinstance(obj, (DictVal, ListVal, SetVal, ItemsView, tuple, list, dict, str, frozenset, AssignVal, SeqIter,
-                            EN.Groups, EN.GroupRef)) or (isinstance(obj, SV) and obj.t == "key"):
+                            EN.Groups, EN.GroupRef, SO.SolVal)) or (isinstance(obj, SV) and obj.t in ("key", "cobj")):
             return Builtin("m." + name, recv=obj)
         if isinstance(obj, BuiltinClass) or (isinstance(obj, Builtin) and obj.recv is None and obj.name in self.BUILTIN_CLASSES):
             return Builtin(obj.name + "." + name)
@@ -2450,8 +2474,44 @@ class Engine:
             raise Unsupported("assignment comprehension: mapping is %s" % type(m).__name__)
         return SV(src.e, "asg")
 
+    def _sol_comprehension(self, n, fr):
+        """{k: convert[v] for k, v in z.items()}  and  {rmap[i]: z[i] for i in range(N)}  over an indexed solution z"""
+        if len(n.generators) != 1 or n.generators[0].ifs:
+            return None
+        g = n.generators[0]
+        src = self.eval(g.iter, fr)
+        if isinstance(src, SO.SolVal) and src.view == "items":
+            tg = g.target
+            if not (isinstance(tg, ast.Tuple) and len(tg.elts) == 2 and all(isinstance(e, ast.Name) for e in tg.elts)
+                    and isinstance(n.key, ast.Name) and n.key.id == tg.elts[0].id):
+                raise Unsupported("dict comprehension over a solution: shape")
+            tb = SO.table_of(self, n.value, tg.elts[1].id, fr)
+            if tb is None:
+                raise Unsupported("dict comprehension over a solution: value is not a table lookup")
+            return SO.mapped(self, src, tb[0], tb[1], "dict")
+        isrange = isinstance(src, range) or (isinstance(src, SeqIter) and src.kind == "range" and len(src.data) == 1)
+        if isrange and isinstance(g.target, ast.Name) and isinstance(n.key, ast.Subscript) and \
+                isinstance(n.value, ast.Subscript) and isinstance(n.key.slice, ast.Name) and \
+                isinstance(n.value.slice, ast.Name) and n.key.slice.id == g.target.id == n.value.slice.id:
+            sol = self.eval(n.value.value, fr)
+            if isinstance(sol, SO.SolVal) and sol.view is None:
+                rmap = self.eval(n.key.value, fr)
+                if not isinstance(rmap, DictVal):
+                    raise Unsupported("relabelling comprehension: mapping is %s" % type(rmap).__name__)
+                if isinstance(src, range):
+                    if src.start != 0 or src.step != 1:
+                        raise Unsupported("relabelling comprehension: range shape")
+                    N = src.stop
+                else:
+                    N = src.data[0]
+                return SO.relabelled(self, rmap, sol, N)
+        return None
+
     def ex_DictComp(self, n, fr):
         r = self._asg_comprehension(n, fr)
+        if r is not None:
+            return r
+        r = self._sol_comprehension(n, fr)
         if r is not None:
             return r
         from . import builtins as B
